@@ -11,6 +11,7 @@ sys.path.insert(0, str(Path(__file__).resolve().parent))
 sys.path.insert(0, str(Path(__file__).resolve().parent.parent / 'translate'))
 import lib  # noqa
 import c11_kernels  # noqa
+import c11_brick  # noqa
 import c11_gen as G  # noqa
 
 PID = 'C11'
@@ -371,7 +372,7 @@ def oracle_affine(ctx, meshes, tasks, res):
     return n_bad
 
 
-def oracle_brick(ctx):
+def oracle_brick(ctx, model_ok=True):
     rng = ctx.rng
     tasks = []
     top = 3 if ctx.tier == 'quick' else 5
@@ -385,6 +386,49 @@ def oracle_brick(ctx):
                           'ly': float(ly), 'lz': float(lz)})
     res = run_impl(ctx, tasks, 'brick')
     n_bad = 0
+    if model_ok:
+        items = []
+        for t in tasks:
+            r = res[t['id']]
+            if 'conn' not in r:
+                continue
+            coords = lib.coq_list([v3flit([hexq(x) for x in c]) for c in r['coords']])
+            conn = lib.coq_list([lib.coq_list([zlit(x) for x in row]) for row in r['conn']])
+            nids = lib.coq_list([zlit(x) for x in r['node_ids']])
+            eids = lib.coq_list([zlit(x) for x in r['eids']])
+            if t['nz'] is not None:
+                items.append(f"({t['id']}%nat, brick3_ok template_{t['type']} {zlit(t['nx'])} {zlit(t['ny'])} "
+                             f"{zlit(t['nz'])} {qf(Fraction(t['lx']))} {qf(Fraction(t['ly']))} "
+                             f"{qf(Fraction(t['lz']))} {nids} {coords} {eids} {conn})")
+            else:
+                items.append(f"({t['id']}%nat, brick2_ok template_{t['type']} {zlit(t['nx'])} {zlit(t['ny'])} "
+                             f"{qf(Fraction(t['lx']))} {qf(Fraction(t['ly']))} {nids} {coords} {eids} {conn})")
+        text = (HEADER + 'From FV.C11 Require Import BrickModel BrickCheck.\n'
+                'From FV.C11.gen Require Import Brick.\n'
+                'Definition cases : list (nat * bool) := [' + ';\n'.join(items) + '].\n'
+                'Goal True. idtac "@@ failing". Abort.\n'
+                'Eval vm_compute in map fst (filter (fun c => negb (snd c)) cases).\n')
+        rc, out, err = ctx.coq_eval('BrickCases', text, timeout=600)
+        bad = failing(out, 'failing') if rc == 0 else None
+        if bad is None:
+            ctx.log('BrickCases.v failed to compile:', err[-600:])
+            ctx.violation('tie-broken', {'stage': 'BrickCases.v'}, 'case file compiles', err[-300:],
+                          'correspondence C11 brick generator', found_input=False,
+                          signature={'kind': 'case-file', 'file': 'BrickCases'})
+            n_bad += 1
+        else:
+            byid = {t['id']: t for t in tasks}
+            for i in bad:
+                t = byid[i]
+                n_bad += 1
+                ctx.violation('correspondence', {k: t[k] for k in ('type', 'nx', 'ny', 'nz', 'lx', 'ly', 'lz')},
+                              'node ids, node positions, element ids and connectivity equal to the model '
+                              '(translated templates + stated index filter)',
+                              {'conn': res[i].get('conn', [])[:6], 'n_elements': len(res[i].get('conn', []))},
+                              'correspondence C11 brick3_conn / brick2_conn', found_input=True,
+                              signature={'kind': 'brick-correspondence', 'type': t['type']},
+                              what='generate_brick output differs from the model')
+        ctx.notes['brick_correspondence'] = {'cases': len(items), 'disagreements': len(bad or [])}
     for t in tasks:
         r = res[t['id']]
         per = {'tri': 2, 'quad': 1, 'tet': 6, 'hex': 1}[t['type']]
@@ -445,14 +489,17 @@ def main(ctx):
         model, consumed = c11_kernels.translate(str(lib.REPO))
         ctx.sources = consumed
         lib.write_if_changed(lib.COQ / 'C11' / 'gen' / 'Kernels.v', c11_kernels.emit(model))
-    except (c11_kernels.TranslateError, SyntaxError) as e:
+        templates, bconsumed = c11_brick.translate(str(lib.REPO))
+        ctx.sources.update(bconsumed)
+        lib.write_if_changed(lib.COQ / 'C11' / 'gen' / 'Brick.v', c11_brick.emit(templates))
+    except (c11_kernels.TranslateError, c11_brick.TranslateError, SyntaxError) as e:
         tie_ok = False
         ctx.log('translator failed closed:', e)
         ctx.notes['translator_error'] = str(e)
     # 2. proofs
     proof_ok = False
     if tie_ok:
-        proof_ok, log = ctx.build_props('C11/Props.v', extra_targets=['C11/Check.vo'])
+        proof_ok, log = ctx.build_props('C11/Props.v', extra_targets=['C11/Check.vo', 'C11/BrickCheck.vo'])
         if not proof_ok:
             ctx.notes['build_log_tail'] = log[-2500:]
     else:
@@ -461,7 +508,7 @@ def main(ctx):
                                     'note': 'translator failed closed'})
     model_ok = tie_ok
     if tie_ok and not proof_ok:
-        ok, log, _ = lib.coq_make(['C11/Check.vo', 'C11/gen/Kernels.vo', 'C11/Entry.vo'])
+        ok, log, _ = lib.coq_make(['C11/Check.vo', 'C11/BrickCheck.vo', 'C11/gen/Kernels.vo', 'C11/Entry.vo'])
         model_ok = ok
         if not ok:
             ctx.notes['model_build_log_tail'] = log[-1500:]
@@ -543,7 +590,7 @@ def main(ctx):
                           what=f'calculate_element_{t["entry"]}: values attached to the wrong element ids')
     # 5. oracles on the implementation
     n_aff_bad = oracle_affine(ctx, meshes, tasks, res)
-    n_brick, n_brick_bad = oracle_brick(ctx)
+    n_brick, n_brick_bad = oracle_brick(ctx, model_ok)
     ctx.notes['search_evaluations'] = len(tasks) + n_brick
     ctx.notes['impl_property_failures'] = {'assembly': n_prop_bad, 'closed_form': n_aff_bad,
                                            'brick': n_brick_bad}
